@@ -438,4 +438,173 @@ theorem bbox_spec (r : Region) (hwf : Region.WF r) (hr : InRange r) (hne : r ≠
     have := (Sorted.all hv'.2.1 sp hsp).1
     exact ⟨sp.s, v, hv, by omega, by omega, sp, hsp, Int.le_refl _, this⟩
 
+/-! ### popRect -/
+
+section dir
+variable {γ : Type}
+
+/-- traversal order -/
+def dir (l : List γ) (rev : Bool) : List γ := if rev then l.reverse else l
+def first? (l : List γ) (rev : Bool) : Option γ := if rev then l.getLast? else l.head?
+def rest (l : List γ) (rev : Bool) : List γ := if rev then l.dropLast else l.tail
+def put (l : List γ) (rev : Bool) (a : γ) : List γ := if rev then l.dropLast ++ [a] else a :: l.tail
+
+theorem first?_none {l : List γ} {rev : Bool} (h : first? l rev = none) : l = [] := by
+  cases rev <;> simp_all [first?]
+
+theorem first?_some {l : List γ} {rev : Bool} {a : γ} (h : first? l rev = some a) :
+    dir l rev = a :: dir (rest l rev) rev ∧ (∀ a', dir (put l rev a') rev = a' :: dir (rest l rev) rev) ∧
+    a ∈ l ∧ (∀ b ∈ rest l rev, b ∈ l) ∧ (rest l rev).Sublist l := by
+  cases rev
+  · simp only [first?, Bool.false_eq_true, if_false] at h
+    cases l with
+    | nil => simp at h
+    | cons x t =>
+      simp only [List.head?_cons, Option.some.injEq] at h
+      subst h
+      simp [dir, rest, put]
+      exact fun b hb => Or.inr hb
+  · simp only [first?, if_true] at h
+    obtain ⟨ys, rfl⟩ := List.getLast?_eq_some_iff.mp h
+    simp [dir, rest, put]
+    exact fun b hb => Or.inl hb
+
+end dir
+
+theorem popRect_eq (r : Region) (flags : Nat) :
+    Region.popRect r flags =
+      (match first? r (flags &&& 1 == 1) with
+       | none => (r, none)
+       | some v =>
+         match first? v.sub (flags &&& 2 == 2) with
+         | none => (r, none)
+         | some h =>
+           (if (rest v.sub (flags &&& 2 == 2)).isEmpty then rest r (flags &&& 1 == 1)
+            else put r (flags &&& 1 == 1) { v with sub := rest v.sub (flags &&& 2 == 2) },
+            some ⟨h.s, v.s, h.e, v.e⟩)) := by
+  simp only [Region.popRect]
+  generalize (flags &&& 1 == 1) = ry
+  generalize (flags &&& 2 == 2) = rx
+  cases ry <;> cases rx <;> rfl
+
+theorem rects_eq_dir (r : Region) (rx ry : Bool) :
+    Region.rects r rx ry =
+      (dir r ry).flatMap fun b => (dir b.sub rx).map fun x => (⟨x.s, b.s, x.e, b.e⟩ : Rect) := rfl
+
+theorem sorted_sublist {α : Type} {G : α → Prop} {l l' : List (Span α)} (h : Sorted G l)
+    (hs : l'.Sublist l) : Sorted G l' := by
+  rw [sorted_iff] at h ⊢
+  exact ⟨h.1.sublist hs, fun sp hsp => h.2 sp (hs.subset hsp)⟩
+
+theorem popRect_spec (r : Region) (hwf : Region.WF r) (flags : Nat) :
+    match Region.rects r (flags &&& 2 == 2) (flags &&& 1 == 1) with
+    | [] => r = [] ∧ Region.popRect r flags = (r, none)
+    | rc :: rs =>
+      (Region.popRect r flags).2 = some rc ∧
+      Region.rects (Region.popRect r flags).1 (flags &&& 2 == 2) (flags &&& 1 == 1) = rs ∧
+      Region.WF (Region.popRect r flags).1 := by
+  rw [popRect_eq]
+  generalize (flags &&& 2 == 2) = rx
+  generalize (flags &&& 1 == 1) = ry
+  cases hv : first? r ry with
+  | none =>
+    have := first?_none hv
+    subst this
+    simp [Region.rects]
+  | some v =>
+    obtain ⟨d1, d2, hvm, hrm, hrs⟩ := first?_some hv
+    have hV := Sorted.all hwf v hvm
+    cases hh : first? v.sub rx with
+    | none => exact absurd (first?_none hh) hV.2.2
+    | some h =>
+      obtain ⟨e1, e2, hhm, hsm, hss⟩ := first?_some hh
+      simp only [hh, rects_eq_dir, d1, e1, List.flatMap_cons, List.map_cons, List.cons_append]
+      refine ⟨trivial, ?_, ?_⟩
+      · by_cases hemp : (rest v.sub rx).isEmpty = true
+        · simp only [hemp, if_true]
+          have : rest v.sub rx = [] := by simpa using hemp
+          simp [this, dir]
+        · simp only [hemp]
+          simp only [Bool.false_eq_true, if_false, d2, List.flatMap_cons]
+      · by_cases hemp : (rest v.sub rx).isEmpty = true
+        · simp only [hemp, if_true]
+          exact sorted_sublist hwf hrs
+        · simp only [hemp]
+          simp only [Bool.false_eq_true, if_false]
+          have hsub : GX (rest v.sub rx) :=
+            ⟨sorted_sublist hV.2.1 hss, by simpa using hemp⟩
+          have hwf' := (sorted_iff.mp hwf)
+          rw [Region.WF, sorted_iff]
+          cases ry
+          · simp only [put, Bool.false_eq_true, if_false]
+            simp only [first?, Bool.false_eq_true, if_false] at hv
+            cases r with
+            | nil => simp at hv
+            | cons x t =>
+              simp only [List.head?_cons, Option.some.injEq] at hv
+              subst hv
+              simp only [List.tail_cons]
+              have hp := hwf'.1
+              rw [List.pairwise_cons] at hp ⊢
+              refine ⟨⟨hp.1, hp.2⟩, ?_⟩
+              intro sp hsp
+              rcases List.mem_cons.mp hsp with rfl | hm
+              · exact ⟨hV.1, hsub⟩
+              · exact hwf'.2 sp (by simp [hm])
+          · simp only [put, if_true]
+            simp only [first?, if_true] at hv
+            obtain ⟨ys, rfl⟩ := List.getLast?_eq_some_iff.mp hv
+            simp only [List.dropLast_concat]
+            have hp := hwf'.1
+            rw [List.pairwise_append] at hp ⊢
+            refine ⟨⟨hp.1, by simp, ?_⟩, ?_⟩
+            · intro a ha b hb
+              simp only [List.mem_singleton] at hb
+              subst hb
+              exact hp.2.2 a ha v (by simp)
+            · intro sp hsp
+              rcases List.mem_append.mp hsp with hm | hm
+              · exact hwf'.2 sp (by simp [hm])
+              · simp only [List.mem_singleton] at hm
+                subst hm
+                exact ⟨hV.1, hsub⟩
+
+
+/-- `sraRgnPopRect` in pixel terms: the popped rectangle is the first one of the iteration in the
+requested directions, it is non-empty and part of the region, and what remains is the region minus
+that rectangle (and is well-formed) -/
+theorem popRect_den (r : Region) (hwf : Region.WF r) (flags : Nat) (r' : Region) (rc : Rect)
+    (h : Region.popRect r flags = (r', some rc)) :
+    Region.WF r' ∧
+    (Region.rects r (flags &&& 2 == 2) (flags &&& 1 == 1)).head? = some rc ∧
+    Region.rects r' (flags &&& 2 == 2) (flags &&& 1 == 1)
+      = (Region.rects r (flags &&& 2 == 2) (flags &&& 1 == 1)).tail ∧
+    (rc.x1 < rc.x2 ∧ rc.y1 < rc.y2) ∧
+    (∀ x y, Rect.den rc x y → Region.den r x y) ∧
+    (∀ x y, Region.den r' x y ↔ (Region.den r x y ∧ ¬ Rect.den rc x y)) := by
+  have hs := popRect_spec r hwf flags
+  have hne := rects_nonempty r hwf (flags &&& 2 == 2) (flags &&& 1 == 1)
+  have hdj := rects_disjoint r hwf (flags &&& 2 == 2) (flags &&& 1 == 1)
+  have hc := rects_cover r (flags &&& 2 == 2) (flags &&& 1 == 1)
+  have hc' := rects_cover r' (flags &&& 2 == 2) (flags &&& 1 == 1)
+  generalize Region.rects r (flags &&& 2 == 2) (flags &&& 1 == 1) = l at *
+  cases l with
+  | nil => simp [hs.2] at h
+  | cons rc0 rs =>
+    simp only [h, Option.some.injEq] at hs
+    obtain ⟨rfl, hrs, hwf'⟩ := hs
+    rw [List.pairwise_cons] at hdj
+    refine ⟨hwf', rfl, hrs, hne _ (by simp), ?_, ?_⟩
+    · intro x y hd
+      exact (hc x y).mpr ⟨_, by simp, hd⟩
+    · intro x y
+      rw [hc' x y, hrs, hc x y]
+      constructor
+      · rintro ⟨c, hcm, hcd⟩
+        exact ⟨⟨c, by simp [hcm], hcd⟩, fun hr => hdj.1 c hcm x y ⟨hr, hcd⟩⟩
+      · rintro ⟨⟨c, hcm, hcd⟩, hn⟩
+        rcases List.mem_cons.mp hcm with rfl | hm
+        · exact absurd hcd hn
+        · exact ⟨c, hm, hcd⟩
+
 end VncModel.Rgn
